@@ -167,12 +167,46 @@ def ac_shuffle(node: ast.AST, rng: random.Random) -> ast.AST:
     return node
 
 
+def payload_sig(expr: str):
+    """The signature where users see it: `parameters_sig` of a sweep node in the inspection payload."""
+    from semantiva.inspection import build_inspection_payload
+
+    cfg = {"extensions": ["semantiva-examples", "verif_ext"], "pipeline": {"nodes": [
+        {"processor": "VPairSource", "derive": {"parameter_sweep": {
+            "parameters": {"a": expr}, "variables": {"x": {"values": [1.0, 2.0]}, "y": {"values": [3.0]}},
+            "collection": "FloatDataCollection"}}}]}}
+    try:
+        payload = build_inspection_payload(cfg)
+    except Exception:
+        return None       # not a buildable sweep (e.g. rejected by the expression policy): nothing to compare
+    found = []
+
+    def walk(o):
+        if isinstance(o, dict):
+            if isinstance(o.get("parameters_sig"), dict) and "a" in o["parameters_sig"]:
+                found.append(o["parameters_sig"]["a"])
+            for v in o.values():
+                walk(v)
+        elif isinstance(o, list):
+            for v in o:
+                walk(v)
+    walk(payload)
+    return found
+
+
 def sampled_chunk(seeds: List[int]):
     out = {"n": 0, "viol": []}
     for sd in seeds:
         rng = random.Random(sd)
         e = rand_expr(rng, rng.randint(2, 5))
         out["n"] += 1
+        if sd % 4 == 0:
+            from semantiva.metadata.semantic_id import normalize_expression_sig_v1
+            for ps in payload_sig(e) or []:
+                if ps != normalize_expression_sig_v1(e):
+                    out["viol"].append(("payload-signature-differs", f"the inspection payload of a sweep over {e!r} carries a signature that is not "
+                                        f"the ExpressionSigV1 of that expression: {str(ps)[:160]}", {"expr": e}))
+                    break
         bad = check_expr(e)
         if bad:
             out["viol"].append(("value:sampled", bad, {"expr": e}))
